@@ -1,3 +1,219 @@
 package main
 
-func workerMain(args []string) {}
+import (
+	"bufio"
+	"encoding/json"
+	"fmt"
+	"io"
+	"os"
+	"os/exec"
+	"runtime"
+	"strings"
+	"sync"
+	"time"
+)
+
+// ---- worker side: one JSON request per line in, one JSON answer per line out; the real Go code is
+// called here, so a log.Fatal / os.Exit / runtime crash kills only this process ----
+
+type wReq struct {
+	ID   int               `json:"id"`
+	Op   string            `json:"op"`
+	Args map[string]string `json:"args"`
+}
+
+type wRes struct {
+	ID    int    `json:"id"`
+	Class string `json:"class"` // ok | err | panic (recovered) ; exit / oom / timeout are assigned by the parent
+	Out   string `json:"out"`
+	Alloc uint64 `json:"alloc"` // runtime.MemStats.TotalAlloc delta
+	Ms    int64  `json:"ms"`
+	Panic string `json:"panic,omitempty"`
+}
+
+var workerOps = map[string]func(args map[string]string) (class, out string){}
+
+func workerMain(args []string) {
+	in := bufio.NewReaderSize(os.Stdin, 1<<22)
+	out := bufio.NewWriter(os.Stdout)
+	for {
+		line, err := in.ReadBytes('\n')
+		if len(line) > 0 {
+			var req wReq
+			if json.Unmarshal(line, &req) == nil {
+				res := runWorkerOp(req)
+				b, _ := json.Marshal(res)
+				out.Write(b)
+				out.WriteByte('\n')
+				out.Flush()
+			}
+		}
+		if err != nil {
+			return
+		}
+	}
+}
+
+func runWorkerOp(req wReq) (res wRes) {
+	res.ID = req.ID
+	f, ok := workerOps[req.Op]
+	if !ok {
+		res.Class, res.Out = "bad-op", req.Op
+		return
+	}
+	var m0, m1 runtime.MemStats
+	runtime.ReadMemStats(&m0)
+	t0 := time.Now()
+	func() {
+		defer func() {
+			if r := recover(); r != nil {
+				res.Class, res.Panic = "panic", fmt.Sprint(r)
+			}
+		}()
+		res.Class, res.Out = f(req.Args)
+	}()
+	res.Ms = time.Since(t0).Milliseconds()
+	runtime.ReadMemStats(&m1)
+	res.Alloc = m1.TotalAlloc - m0.TotalAlloc
+	return
+}
+
+// ---- parent side ----
+
+type Worker struct {
+	c      *Ctx
+	env    []string
+	memKB  int64
+	cmd    *exec.Cmd
+	in     io.WriteCloser
+	out    *bufio.Reader
+	stderr *tailBuf
+	n      int
+	mu     sync.Mutex
+}
+
+type tailBuf struct {
+	mu    sync.Mutex
+	b     []byte
+	oom   bool
+	crash bool
+	first string
+}
+
+func (t *tailBuf) Write(p []byte) (int, error) {
+	t.mu.Lock()
+	s := string(p)
+	if t.first == "" {
+		t.first = strings.SplitN(strings.TrimSpace(s), "\n", 2)[0]
+	}
+	if strings.Contains(s, "out of memory") || strings.Contains(s, "cannot allocate memory") {
+		t.oom = true
+	}
+	if strings.Contains(s, "panic:") || strings.Contains(s, "fatal error:") || strings.Contains(s, "goroutine ") {
+		t.crash = true
+	}
+	t.b = append(t.b, p...)
+	if len(t.b) > 8192 {
+		t.b = t.b[len(t.b)-8192:]
+	}
+	t.mu.Unlock()
+	return len(p), nil
+}
+func (t *tailBuf) String() string { t.mu.Lock(); defer t.mu.Unlock(); return string(t.b) }
+
+// NewWorker starts a sandboxed worker: address-space limit (so that a 4 GiB allocation is an
+// immediate out-of-memory instead of minutes of page zeroing), extra environment (e.g. TZ).
+func (c *Ctx) NewWorker(memKB int64, env ...string) *Worker {
+	w := &Worker{c: c, env: env, memKB: memKB}
+	w.start()
+	return w
+}
+
+func (w *Worker) start() {
+	self, _ := os.Executable()
+	sh := fmt.Sprintf("ulimit -v %d 2>/dev/null; exec %q worker", w.memKB, self)
+	w.cmd = exec.Command("/bin/sh", "-c", sh)
+	w.cmd.Env = append(os.Environ(), w.env...)
+	w.in, _ = w.cmd.StdinPipe()
+	o, _ := w.cmd.StdoutPipe()
+	w.out = bufio.NewReaderSize(o, 1<<22)
+	w.stderr = &tailBuf{}
+	w.cmd.Stderr = w.stderr
+	w.cmd.Start()
+}
+
+func (w *Worker) Close() {
+	if w.in != nil {
+		w.in.Close()
+	}
+	if w.cmd != nil {
+		done := make(chan struct{})
+		go func() { w.cmd.Wait(); close(done) }()
+		select {
+		case <-done:
+		case <-time.After(2 * time.Second):
+			w.cmd.Process.Kill()
+		}
+	}
+}
+
+// Do runs one operation; a dead or silent worker is classified and restarted.
+func (w *Worker) Do(op string, args map[string]string, timeout time.Duration) wRes {
+	w.mu.Lock()
+	defer w.mu.Unlock()
+	w.n++
+	req := wReq{ID: w.n, Op: op, Args: args}
+	b, _ := json.Marshal(req)
+	type rr struct {
+		line []byte
+		err  error
+	}
+	ch := make(chan rr, 1)
+	t0 := time.Now()
+	go func() {
+		if _, err := w.in.Write(append(b, '\n')); err != nil {
+			ch <- rr{nil, err}
+			return
+		}
+		line, err := w.out.ReadBytes('\n')
+		ch <- rr{line, err}
+	}()
+	select {
+	case r := <-ch:
+		if r.err == nil {
+			var res wRes
+			if json.Unmarshal(r.line, &res) == nil && res.ID == req.ID {
+				return res
+			}
+		}
+		// the worker died while running this operation
+		w.cmd.Wait()
+		w.stderr.mu.Lock()
+		oom, crash, first := w.stderr.oom, w.stderr.crash, w.stderr.first
+		w.stderr.mu.Unlock()
+		res := wRes{ID: req.ID, Ms: time.Since(t0).Milliseconds(), Out: first}
+		switch {
+		case oom:
+			res.Class = "oom"
+		case crash:
+			res.Class = "panic"
+		default:
+			res.Class = "exit" // log.Fatal* / os.Exit: the process ended without a Go crash trace
+		}
+		w.start()
+		return res
+	case <-time.After(timeout):
+		w.cmd.Process.Kill()
+		w.cmd.Wait()
+		w.start()
+		return wRes{ID: req.ID, Class: "timeout", Ms: time.Since(t0).Milliseconds()}
+	}
+}
+
+func lastLines(s string, n int) string {
+	ls := strings.Split(strings.TrimSpace(s), "\n")
+	if len(ls) > n {
+		ls = ls[len(ls)-n:]
+	}
+	return strings.Join(ls, " | ")
+}
